@@ -1,0 +1,28 @@
+//go:build verif
+
+package object
+
+import (
+	"io"
+)
+
+// Verification hooks for properties C02/C03 (add-only, build tag verif).
+
+// VerifC03ParseSignedBytes exposes parseSignedBytes (position of the last
+// signature block, -1 if none; and the detected signature type).
+func VerifC03ParseSignedBytes(b []byte) (int, int) {
+	n, t := parseSignedBytes(b)
+	return n, int(t)
+}
+
+// VerifC03CountSignatureBlocks exposes countSignatureBlocks.
+func VerifC03CountSignatureBlocks(b []byte) int { return countSignatureBlocks(b) }
+
+// VerifC03StripHeaderSignatures exposes stripHeaderSignatures.
+func VerifC03StripHeaderSignatures(w io.Writer, r io.Reader) error {
+	return stripHeaderSignatures(w, r)
+}
+
+// VerifC03CommitMatchesSource / VerifC03TagMatchesSource expose matchesSource.
+func VerifC03CommitMatchesSource(c *Commit) bool { return c.matchesSource() }
+func VerifC03TagMatchesSource(t *Tag) bool       { return t.matchesSource() }
